@@ -161,8 +161,6 @@ def roundtrip09 (src tgt : Repo) (base target : Rev) : Except Err Repo :=
 
 abbrev Line := Bytes
 
-def str (s : String) : Bytes := s.toUTF8.toList
-
 def isPrefix : Bytes → Bytes → Bool
   | [], _ => true
   | _ :: _, [] => false
@@ -171,16 +169,13 @@ def isPrefix : Bytes → Bytes → Bool
 /-- Python `bytes.splitlines(True)`: line boundaries are `\n`, `\r`, `\r\n` -/
 def splitLines : Bytes → List Line
   | [] => []
+  | 13 :: 10 :: rest => [13, 10] :: splitLines rest
+  | 13 :: rest => [13] :: splitLines rest
+  | 10 :: rest => [10] :: splitLines rest
   | b :: rest =>
-    if b = 10 then [10] :: splitLines rest
-    else if b = 13 then
-      match h : rest with
-      | 10 :: rest' => [13, 10] :: splitLines rest'
-      | _ => [13] :: splitLines rest
-    else match splitLines rest with
-      | [] => [[b]]
-      | l :: ls => (b :: l) :: ls
-termination_by l => l.length
+    match splitLines rest with
+    | [] => [[b]]
+    | l :: ls => (b :: l) :: ls
 
 /-- reading a file object line by line: boundaries are `\n` only -/
 def splitNL : Bytes → List Line
@@ -204,14 +199,22 @@ structure Directive (α : Type) where
   fields : α
   patch : Option Bytes
   bundle : Option Bytes
+  deriving DecidableEq, Repr
 
-def header2 : Line := str "# Bazaar merge directive format 2 (Bazaar 0.90)\n"
-def headerPrefix : Bytes := str "# Bazaar merge directive format "
-def blank : Line := str "# \n"
-def beginPatch : Line := str "# Begin patch\n"
-def beginBundle : Line := str "# Begin bundle\n"
-def beginPatchPrefix : Bytes := str "# Begin patch"
-def beginBundlePrefix : Bytes := str "# Begin bundle"
+/-- `# Bazaar merge directive format 2 (Bazaar 0.90)\n` -/
+def header2 : Line := [35, 32, 66, 97, 122, 97, 97, 114, 32, 109, 101, 114, 103, 101, 32, 100, 105, 114, 101, 99, 116, 105, 118, 101, 32, 102, 111, 114, 109, 97, 116, 32, 50, 32, 40, 66, 97, 122, 97, 97, 114, 32, 48, 46, 57, 48, 41, 10]
+/-- `# Bazaar merge directive format ` -/
+def headerPrefix : Bytes := [35, 32, 66, 97, 122, 97, 97, 114, 32, 109, 101, 114, 103, 101, 32, 100, 105, 114, 101, 99, 116, 105, 118, 101, 32, 102, 111, 114, 109, 97, 116, 32]
+/-- `# \n` -/
+def blank : Line := [35, 32, 10]
+/-- `# Begin patch\n` -/
+def beginPatch : Line := [35, 32, 66, 101, 103, 105, 110, 32, 112, 97, 116, 99, 104, 10]
+/-- `# Begin bundle\n` -/
+def beginBundle : Line := [35, 32, 66, 101, 103, 105, 110, 32, 98, 117, 110, 100, 108, 101, 10]
+/-- `# Begin patch` -/
+def beginPatchPrefix : Bytes := [35, 32, 66, 101, 103, 105, 110, 32, 112, 97, 116, 99, 104]
+/-- `# Begin bundle` -/
+def beginBundlePrefix : Bytes := [35, 32, 66, 101, 103, 105, 110, 32, 98, 117, 110, 100, 108, 101]
 
 /-- `MergeDirective2.to_lines` -/
 def toLines {α : Type} (c : Codec α) (d : Directive α) : List Line :=
@@ -240,12 +243,19 @@ def rstrip (b : Bytes) : Bytes := (b.reverse.dropWhile isSpace).reverse
 inductive Format where | one | two
   deriving DecidableEq, Repr
 
+/-- `Bazaar merge directive format 1` -/
+def format1Key : Bytes := [66, 97, 122, 97, 97, 114, 32, 109, 101, 114, 103, 101, 32, 100, 105, 114, 101, 99, 116, 105, 118, 101, 32, 102, 111, 114, 109, 97, 116, 32, 49]
+/-- `Bazaar merge directive format 2 (Bazaar 0.90)` -/
+def format2Key : Bytes := [66, 97, 122, 97, 97, 114, 32, 109, 101, 114, 103, 101, 32, 100, 105, 114, 101, 99, 116, 105, 118, 101, 32, 102, 111, 114, 109, 97, 116, 32, 50, 32, 40, 66, 97, 122, 97, 97, 114, 32, 48, 46, 57, 48, 41]
+/-- `Bazaar merge directive format 2 (Bazaar 0.19)` -/
+def format2OldKey : Bytes := [66, 97, 122, 97, 97, 114, 32, 109, 101, 114, 103, 101, 32, 100, 105, 114, 101, 99, 116, 105, 118, 101, 32, 102, 111, 114, 109, 97, 116, 32, 50, 32, 40, 66, 97, 122, 97, 97, 114, 32, 48, 46, 49, 57, 41]
+
 /-- `_format_registry.get(line[2:].rstrip())` -/
 def lookupFormat (line : Line) : Option Format :=
   let key := rstrip (line.drop 2)
-  if key = str "Bazaar merge directive format 1" then some .one
-  else if key = str "Bazaar merge directive format 2 (Bazaar 0.90)" then some .two
-  else if key = str "Bazaar merge directive format 2 (Bazaar 0.19)" then some .two
+  if key = format1Key then some .one
+  else if key = format2Key then some .two
+  else if key = format2OldKey then some .two
   else none
 
 /-- the payload part of `MergeDirective2._from_lines`, after the stanza -/
@@ -278,7 +288,7 @@ def fromLines {α : Type} (c : Codec α) (lines : List Line) : Except DErr (Dire
 
 /-- the lines `read_patch_stanza` takes as the end of the stanza: an empty line
 after the `# ` / `#` prefix is removed -/
-def isBlank (l : Line) : Bool := l == blank || l == str "#\n"
+def isBlank (l : Line) : Bool := l == blank || l == [35, 10]
 
 /-- the opaque codec used by the driver: the field record *is* the block of
 stanza lines; decoding takes the lines up to the first blank line -/
@@ -294,13 +304,9 @@ def blockCodec : Codec (List Line) where
 /-- `re.sub(b"\r\n?", b"\n", s)` -/
 def normEol : Bytes → Bytes
   | [] => []
-  | b :: rest =>
-    if b = 13 then
-      match h : rest with
-      | 10 :: rest' => 10 :: normEol rest'
-      | _ => 10 :: normEol rest
-    else b :: normEol rest
-termination_by l => l.length
+  | 13 :: 10 :: rest => 10 :: normEol rest
+  | 13 :: rest => 10 :: normEol rest
+  | b :: rest => b :: normEol rest
 
 /-- is the rest of the input ` *\n…`? -/
 def spacesThenNL (b : Bytes) : Bool := (b.dropWhile (· == 32)).head? == some 10
